@@ -45,6 +45,16 @@ class Abs:
     def __repr__(self):
         return "<%s>" % self.label
 
+    def __hash__(self):
+        # a rule marks an abstract object whose class has no usable __hash__
+        # (it returns NotImplemented / None): hashing it is a TypeError
+        if self.attrs.get("__unhashable__"):
+            raise Raised("builtins.TypeError")
+        return id(self) >> 4
+
+    def __eq__(self, other):
+        return self is other
+
     def isa(self, other):
         if self.cls is None:
             return False
@@ -425,10 +435,12 @@ class Evaluator:
                     else:
                         r = left == right
                 ok = r if isinstance(op, ast.Eq) else not r
-            elif isinstance(op, ast.In):
+            elif isinstance(op, (ast.In, ast.NotIn)):
+                if isinstance(right, (set, frozenset, dict)):
+                    hash(left)      # (an unhashable abstract object raises)
                 ok = any(self._eq(left, x) for x in right)
-            elif isinstance(op, ast.NotIn):
-                ok = not any(self._eq(left, x) for x in right)
+                if isinstance(op, ast.NotIn):
+                    ok = not ok
             elif isinstance(op, ast.Is):
                 ok = left is right
             elif isinstance(op, ast.IsNot):
@@ -490,6 +502,10 @@ class Evaluator:
         if isinstance(ent, (ClassInfo, FuncInfo, External)):
             return ent
         if isinstance(ent, Const):
+            if ent.cls is not None and self.hooks is not None:
+                r = self.hooks.class_attr(self, ent.cls, node.attr)
+                if r is not NotImplemented:
+                    return r
             return self.const(ent)
         base = self.ev(node.value)
         return self.getattr(base, node.attr, node)
@@ -709,6 +725,17 @@ class Evaluator:
         if isinstance(f, ast.Name) and f.id == "object" and \
                 not node.args and "object" not in self.env:
             return object()
+        if dotted(f) in ("defaultdict", "collections.defaultdict") and \
+                len(node.args) <= 1 and not node.keywords:
+            import collections
+            fac = node.args[0] if node.args else None
+            if fac is None:
+                return collections.defaultdict()
+            if isinstance(fac, ast.Name) and fac.id in (
+                    "dict", "list", "set", "int") and fac.id not in self.env:
+                return collections.defaultdict(
+                    {"dict": dict, "list": list, "set": set,
+                     "int": int}[fac.id])
         if dotted(f) in ("attrgetter", "operator.attrgetter") and \
                 len(node.args) == 1 and not node.keywords:
             path = self.ev(node.args[0])
